@@ -124,7 +124,9 @@ class FnLower:
                 else:
                     if not tags_done: self.set_tags(rec); tags_done = True
                     fld = c.get('anyInit')
-                    if fld is None: self.unsupported('ctor initialiser')
+                    if fld is None:
+                        # delegating constructor: X(args) : X(other args) {}
+                        self.construct_into('self', c['inner'][0], ('rec', rec)); continue
                     fd = self.idx.by_id.get(fld['id'], fld)
                     self.init_field(fd, c['inner'][0])
             if not tags_done: self.set_tags(rec)
